@@ -120,7 +120,10 @@ def run(ctx, rep):
             for fn, c in hits:
                 seen += 1
                 key = "%s:%s#%s" % (kind, name, fn)
-                if (kind, name) in allowed:
+                if (kind, name) in allowed or (kind == "lib" and name.split(" as ")[0].lstrip("<").startswith(
+                        ("build_docs::", "selection_help::"))):
+                    # the documentation generator (feature create-docs) reports its progress on stdout; it is not
+                    # part of a run over data
                     r3.ok(key, "allowed owner", c.where() if c else b.where(), nontrivial=False)
                 else:
                     r3.bad(key, "%s is used outside main: rows or diagnostics can bypass the streams chosen by main"
